@@ -487,6 +487,7 @@ def setup(ctx):
     # history: registrations the library refuses (taken names, in either 2.1 category) come before the content is judged
     from ..gen import custom as gcustom
     ctx.count("refused_registrations_before_the_workload", gcustom.refused_registrations())
+    ctx.count("refused_registrations_that_left_something_behind", len(gcustom.LEFT_BEHIND))
 
 
 WORKLOADS = [
